@@ -8,18 +8,35 @@ ID = "C07"
 LEAN_MODULES = ["LexVerif.Props.C07", "LexVerif.Props.RoundNE", "LexVerif.Props.Literals.WriteFloatRadix", "LexVerif.Props.Literals.WriteFloatShared", "LexVerif.Props.Literals.WriteFloatWrite"]
 GEN = ["literals"]
 TRUSTED = TRUSTED_BASE + [
-    "write-float/src/radix.rs uses hardware f64 arithmetic (*, /, %, floor). Only its INTEGER path is modelled in Lean (Model/WriteRadixInt.lean: floats with an integral value below 2^53 / 2^24, default digit options; model column of `wf` on those ops) and proved: under the explicit IEEE assumption IeeeExact (`%`, `-`, `/` exact on integers below the mantissa limit when the result is such an integer) the digits written are toDigits r n, positional and scientific (radix_integer_exact*). The fraction loop is not modelled. Each output is evaluated EXACTLY by the Lean oracle "
-    "(grammar + big rationals) and its distance to the float is measured in ulps; the ulp bound is therefore established by measurement on the stream, not by proof",
+    "write-float/src/radix.rs runs in hardware floating point of the float's own type (f32 is NOT widened). The WHOLE function is modelled in Lean "
+    "(Model/WriteRadix.lean): every *, +, -, /, %, floor, as-cast is 'exact rational result, then IEEE round-to-nearest-even' (Spec.roundNE, whose "
+    "nearest/ties-even/monotone theorems are proved); that hardware arithmetic is IEEE-754-correct (incl. an exact fmod) is trusted. "
+    "% and floor being exact is PROVED about the model (fmod_exact, ffloor_exact), not assumed",
+    "the model is tied to radix.rs only by the wf correspondence (byte-for-byte, panics included, all option combinations the op carries); "
+    "Model.WriteRadix.repoHasCarryFix selects the round-up back-trace of the code under test (true = /repo at or after dbb7ae7)",
+    "the ulp clause is NOT proved: every output is evaluated exactly by the Lean oracle (grammar + big rationals) and its distance to the float is "
+    "measured in ulps; full statement kept as Props.C07.C07_radix_error_bound",
 ]
 RULE = ("29 generic radices x {f32,f64} x G-bits (every binade min/max/half/random, subnormals, integers below 2^53/2^24 incl. r^k-1, r^k, r^k+1 and carry chains "
-        "(values just below powers of the radix), random) x options (default, breaks forcing positional / scientific). Judged: only digits < radix plus at most one point "
+        "(values just below powers of the radix), random) x options (default, breaks forcing positional / scientific). Stage 1: implementation vs Lean model of the "
+        "whole writer, byte for byte. Judged: only digits < radix plus at most one point "
         "and one exponent (oracle grammar accepts), implementation parser accepts it in the same format, exact distance to the float below 2048/256 ulp, integers exact. "
         "non-trivial = finite non-zero; distinct = distinct ops")
-TECHNIQUE = "Lean 4 oracle theorems (roundNE/valQ; exactness implies round trip) + exact rational evaluation of each generic-radix output by the Lean driver, measuring ulp error; re-parse correspondence"
-LEVEL_TEXT = ("Proved in Lean: the oracle used to measure the error (roundNE nearest/monotone; exact values of floats). The integer clause is a theorem about the Lean model of the integer path of radix.rs (radix_integer_exact, under the stated IEEE exactness assumption; model tied by the wf correspondence on integral floats). The fractional digit generation is NOT "
-              "modelled or proved; the three clauses (well-formed, < 2048/256 ulp, integers exact) are measured exactly on every output of the stream. This property is claimed at proof level only for the "
-              "oracle; for the writer it is exploration with an exact judge, and is labelled partial.")
-LEVEL_NOTE = "Trusted: Lean kernel (oracle theorems); rustc; hardware IEEE arithmetic; differential harness and generators. Lean model of the integer path of radix.rs only."
+TECHNIQUE = ("Lean 4 model of the whole generic-radix writer with exactly modelled IEEE arithmetic, tied byte-exactly to radix.rs by differential correspondence; theorems on the model for "
+             "every finite f32/f64 and every generic radix (well-formedness, termination inside the scratch buffer, integer exactness, per-step exactness); "
+             "exact rational evaluation of each output by the Lean driver for the ulp clause; re-parse correspondence")
+LEVEL_TEXT = ("Proved in Lean on the model of the whole writer, for EVERY finite binary32/binary64 pattern and every generic radix (no bound): (a) radix_wellformed — with default "
+              "max_significant_digits the text is digits below the radix, at most one decimal point, at most one exponent (sign, digits of the exponent radix), no exclusion "
+              "hypothesis for the code as repaired in /repo dbb7ae7 (the digit of an iteration is < radix: 58 kernel-evaluated rounding facts + monotonicity; the back-trace writes "
+              "digit+1 < radix); for the original snapshot the same under the exact hypothesis 'all fraction bytes valid' with the decided witness snapshot_roundup_invalid_digit "
+              "(\"0.203\" in radix 3); decided witness that max_significant_digits can emit NUL bytes; (b) radix_generate_total — fraction loop (delta doubles per step) and both integer "
+              "loops (exponent field drops per step) stay inside the 2200-byte scratch buffer, so fuel = buffer capacity is adequate; (c) radix_integer_exact_full / "
+              "radix_integer_text_full — integers below 2^53 / 2^24: digits are toDigits r n and the written bytes equal the integer-path model, with the former IeeeExact assumption "
+              "proved (ieeeExact_modelOps); (d) radix_split_exact, radix_fraction_step_partial — float = floor + fraction exactly, each iteration is exact except for the one rounding "
+              "of fraction*base. NOT proved: the ulp bound (C07_radix_error_bound : Prop), measured exactly on every output of the stream; behaviour under max_significant_digits "
+              "(recorded findings). New finding proved on the model and replayed: required_exponent_notation + zero panics (finding_zero_required_exponent_panics).")
+LEVEL_NOTE = ("Trusted: Lean kernel; rustc; hardware IEEE-754 arithmetic incl. exact fmod; differential harness and generators (the model is hand-written, tied by correspondence). "
+              "Proof level for well-formedness, termination and the integer clause on the model; the ulp clause is exploration with an exact judge — labelled partial.")
 
 GENERIC = [r for r in range(3, 37) if r not in (4, 8, 10, 16, 32)]
 
